@@ -117,6 +117,7 @@ struct Sim {
     states: Vec<u64>,
     goals: Vec<&'static str>,
     registered: Vec<usize>,
+    ok_used: bool,
 }
 
 impl Sim {
@@ -298,8 +299,16 @@ impl Sim {
             s
         };
         let pl = payload(peer, seq, &mut self.rng);
-        let frame = match self.rng.below(5) {
-            0 => Frame::Ok,
+        let mut choice = self.rng.below(5);
+        if choice == 0 && self.ok_used {
+            choice = 1;
+        }
+        let frame = match choice {
+            0 => {
+                // carries no payload, so it can be identified only if it is unique in the run
+                self.ok_used = true;
+                Frame::Ok
+            }
             1 => Frame::BatchMessage(pl.clone()),
             2 => Frame::Error(ErrorPayload { code: 7, message: pl.clone() }),
             3 => {
@@ -631,6 +640,7 @@ pub fn run(seed: u64, family: &str, keep_dump: bool) -> RunResult {
         states: vec![],
         goals: vec![],
         registered: vec![],
+        ok_used: false,
     };
     // peers
     {
@@ -786,7 +796,7 @@ pub fn run(seed: u64, family: &str, keep_dump: bool) -> RunResult {
             sim.quiescent_checks("final quiescence", true);
         }
     } else {
-        sim.quiescent_checks("after router death", true);
+        sim.quiescent_checks(if sim.completed { "after completion" } else { "after router death" }, true);
     }
     if sim.alive && !sim.closed {
         sim.probe();
